@@ -2,10 +2,20 @@
 
 package mapping
 
-import "io"
+import (
+	"io"
+
+	"tunnox-core/internal/client/tunnel"
+)
 
 // VerifHandleConnection drives the real admission path of one accepted local connection.
 func (h *BaseMappingHandler) VerifHandleConnection(c io.ReadWriteCloser) { h.handleConnection(c) }
 
 // VerifActiveConnCount reads the admission counter.
 func (h *BaseMappingHandler) VerifActiveConnCount() int { return int(h.activeConnCount.Load()) }
+
+// VerifWrapTunnelManager replaces the handler's tunnel manager by wrap(current) — used to deliver a peer's "tunnel closed"
+// notification in the window between RegisterTunnel and tun.Start().
+func (h *BaseMappingHandler) VerifWrapTunnelManager(wrap func(tunnel.TunnelManager) tunnel.TunnelManager) {
+	h.tunnelManager = wrap(h.tunnelManager)
+}
